@@ -331,6 +331,28 @@ impl Prop for C04 {
         if c.hash_seed % 6 != 4 {
             return None;
         }
+        if c.hash_seed % 12 == 4 {
+            // a close relative of a dependency-graph case: the same dependent variables, wired the other way round
+            if let Scenario::DepGraph { inst, state, via_samples, .. } = &c.sc {
+                let keys: Vec<u64> = inst.deps.iter().map(|d| d.0).collect();
+                if keys.len() >= 2 {
+                    let mut rel = inst.clone();
+                    let rev: Vec<u64> = keys.iter().rev().copied().collect();
+                    let indep = inst.vars.iter().map(|v| v.id).find(|i| !keys.contains(i) && *i != 777);
+                    rel.deps = (0..rev.len())
+                        .map(|i| {
+                            let on = if i + 1 < rev.len() { Some(rev[i + 1]) } else { indep };
+                            let f = match on {
+                                Some(v) => FuncSpec::Linear { terms: vec![(v, F(1.0))], constant: F(0.5) },
+                                None => FuncSpec::Constant(F(1.0)),
+                            };
+                            (rev[i], f)
+                        })
+                        .collect();
+                    return Some(Case { sc: Scenario::DepGraph { inst: rel, order: None, state: state.clone(), via_samples: *via_samples }, hash_seed: c.hash_seed ^ 1 });
+                }
+            }
+        }
         Some(self.gen(&mut Rng::new(c.hash_seed ^ 0x51B1_1B15), Tier::Quick, 0))
     }
 
